@@ -1699,6 +1699,12 @@ func (m *Monitor) checkC13(g *Gen, w []string, out string, b, a *snapshot) {
 			case w[0] == "end" && exact[k]:
 				for _, t := range x.txs {
 					if _, ok := liveAfter[t.id]; ok {
+						if cause := m.execFailureCause(g, c, x); cause != "other" && executed[x.extToken] > x.nonce {
+							// the known finding in two steps within one end-block: the execution event of this batch failed as a
+							// whole (it stayed pending), then a newer batch of the token was applied and withdrew it
+							m.report(g, "execution-event-failed:"+cause, fmt.Sprintf("chain %s batch %s observed executed, its handler failed, a newer batch of the token then returned transfer %d to the pool", c, k, t.id))
+							continue
+						}
 						m.report(g, "executed-batch-returned-to-pool", fmt.Sprintf("chain %s batch %s transfer %d", c, k, t.id))
 					}
 				}
